@@ -90,3 +90,35 @@ REG.contract('C08', O, 'choices_are_different', variant='combo', params={'a': Co
              ensures=['result == (not seq_eq_from(a.choices, b.choices, 0))'], result=Bool, floor=1, note='a combo option changed iff its choice list changed')
 REG.contract('C08', O, 'choices_are_different', variant='string', params={'a': StrO, 'b': StrO},
              ensures=['result == False'], result=Bool, floor=1, note='options without an admissible set never count as changed')
+
+# ---- a removed option vanishes: the clean-up step of update_project_options (after the merge loop) drops every stored project
+# option of this (sub)project that the option file no longer declares, and nothing else
+PStoreS = Struct('OptionStore', 'mesonbuild.options:OptionStore', options=Dict(Obj, Obj), project_options=Set(Obj))
+REG.contract('C08', O, 'OptionStore.is_project_option', variant='c08', inline=True, trusted=True, note='key in self.project_options; inlined')
+REG.contract('C08', O, 'OptionStore.remove', variant='c08', inline=True, trusted=True, note='del self.options[key]; self.project_options.remove(key); inlined')
+GONE = "(k in potential_removed_keys and k in self.project_options and attr_subproject(k) == subproject)"
+REG.contract('C08', O, 'OptionStore.update_project_options', variant='clean-up', region=('For', 'potential_removed_keys'),
+             params={'self': PStoreS, 'potential_removed_keys': Set(Obj), 'subproject': Str},
+             requires=['forall(Obj, lambda k: implies(k in potential_removed_keys, k in self.options))'],
+             ensures=[f"forall(Obj, lambda k: (k in new(self).options) == (k in self.options and not {GONE}))",
+                      f"forall(Obj, lambda k: implies(k in new(self).options, new(self).options[k] is self.options[k]))",
+                      f"forall(Obj, lambda k: (k in new(self).project_options) == (k in self.project_options and not {GONE}))"],
+             loops={1: Loop(invariant=[f"forall(Obj, lambda k: (k in self.options) == (k in old_self.options and not ({GONE.replace('self.project_options', 'old_self.project_options')} and k in __seen)))",
+                                       "forall(Obj, lambda k: implies(k in self.options, self.options[k] is old_self.options[k]))",
+                                       f"forall(Obj, lambda k: (k in self.project_options) == (k in old_self.project_options and not ({GONE.replace('self.project_options', 'old_self.project_options')} and k in __seen)))"])},
+             opaque_attrs={'subproject': Opt(Str)}, modifies=['self.options', 'self.project_options'], floor=6,
+             note='the keys to examine are those stored but not declared any more (computed by the statement before); of these exactly the project options of this (sub)project are removed, from the option table and from the set of project options; every other entry keeps its option object')
+GONE0 = "(k in self.project_options and attr_subproject(k) == subproject)"
+REG.contract('C08', O, 'OptionStore.update_project_options', variant='nothing-declared', params={'self': PStoreS, 'project_options': Const({}), 'subproject': Str},
+             requires=['forall(Obj, lambda k: implies(k in self.project_options, k in self.options))'],
+             ensures=[f"forall(Obj, lambda k: (k in new(self).options) == (k in self.options and not {GONE0}))",
+                      f"forall(Obj, lambda k: (k in new(self).project_options) == (k in self.project_options and not {GONE0}))"],
+             loops={1: Loop(invariant=[f"forall(Obj, lambda k: (k in self.options) == (k in old_self.options and not ({GONE0.replace('self.project_options', 'old_self.project_options')} and k in __seen)))",
+                                       "forall(Obj, lambda k: implies(k in self.options, self.options[k] is old_self.options[k]))",
+                                       f"forall(Obj, lambda k: (k in self.project_options) == (k in old_self.project_options and not ({GONE0.replace('self.project_options', 'old_self.project_options')} and k in __seen)))"])},
+             opaque_attrs={'subproject': Opt(Str)}, modifies=['self.options', 'self.project_options'], floor=4,
+             note='the whole function when the option file declares NOTHING (any more): every stored project option of this (sub)project vanishes')
+REG.contract('C08', O, 'OptionStore.update_project_options', variant='keys-to-examine', region=('Assign', 'potential_removed_keys ='),
+             params={'self': PStoreS, 'project_options': Dict(Obj, Obj)},
+             ensures=["forall(Obj, lambda k: (k in final('potential_removed_keys')) == (k in self.options and k not in project_options))"], floor=1,
+             note='the keys examined by the clean-up are exactly those stored but not declared by the option file any more')
